@@ -7,6 +7,11 @@ Theorem C18_eq_sound : forall p q : prog, prog_eq p q = true -> p = q.
 Proof. exact prog_eq_sound. Qed.
 Print Assumptions C18_eq_sound.
 
+(* the comparison before fix 19a0026 (post-selection values and dark counts ignored) is refuted *)
+Theorem C18_eq_ignoring_select_refuted : exists p q, prog_eq_noopts p q = true /\ p <> q /\ prog_eq p q = false.
+Proof. exact prog_eq_noopts_refuted. Qed.
+Print Assumptions C18_eq_ignoring_select_refuted.
+
 Theorem C18_eq_reflexive : forall p : prog, prog_eq p p = true.
 Proof. exact prog_eq_refl. Qed.
 Print Assumptions C18_eq_reflexive.
